@@ -7,6 +7,7 @@ pub mod c17;
 pub mod c18;
 pub mod c20;
 pub mod simc;
+pub mod tables;
 
 use crate::run::Check;
 
